@@ -130,8 +130,9 @@ def parseCfg (ts : List String) : Cfg × FDet :=
   match ts with
   | [n, iv, half, susp, ind, fix, ystar, zeroAvail, initIv] =>
     (⟨natD n, natD iv, natD half, natD susp, natD ind, fix == "1"⟩,
-     { ystar := floatOfBits ystar, zeroAvail := zeroAvail == "1",
-       ivs := if initIv == "none" then #[] else #[floatOfBits initIv] })
+     FDet.refresh
+       { ystar := floatOfBits ystar, zeroAvail := zeroAvail == "1",
+         ivs := if initIv == "none" then #[] else #[floatOfBits initIv] })
   | _ => (⟨0, 0, 0, 0, 0, true⟩, {})
 
 def parseInit (ts : List String) : Option (Nat × Nat × List Nat) :=
@@ -250,8 +251,9 @@ def judgeCluster (hdr : List String) (body : List String) : List String :=
 def runPhi (hdr : List String) (body : List String) : List String :=
   match hdr with
   | [ystar, zeroAvail, maxN, initIv] =>
-    let d0 : FDet := { ystar := floatOfBits ystar, zeroAvail := zeroAvail == "1", maxN := natD maxN,
-                       ivs := if initIv == "none" then #[] else #[floatOfBits initIv] }
+    let d0 : FDet := FDet.refresh
+      { ystar := floatOfBits ystar, zeroAvail := zeroAvail == "1", maxN := natD maxN,
+        ivs := if initIv == "none" then #[] else #[floatOfBits initIv] }
     let rec go (d : FDet) : List String → List String
       | [] => []
       | l :: ls =>
